@@ -44,6 +44,13 @@ impl WalPathManager {
     }
 
     pub(crate) fn create_new_file(&self) -> std::io::Result<String> {
+        #[cfg(walrus_verif)]
+        if crate::wal::verif::fault("create_file") {
+            return Err(std::io::Error::new(
+                std::io::ErrorKind::Other,
+                "injected: file creation failed",
+            ));
+        }
         self.ensure_root()?;
         let file_name = now_millis_str();
         let path = self.root.join(&file_name);
